@@ -100,7 +100,7 @@ def run_inproc(args, which="pretext"):
 def run_subproc(args, which="pretext", env=None, cwd=None):
     mod = "tola.assembly.scripts.pretext_to_asm" if which == "pretext" else "tola.assembly.scripts.asm_format"
     e = dict(os.environ)
-    e["PYTHONPATH"] = "/repo/src"
+    e["PYTHONPATH"] = str(C.REPO / "src")
     e["PYTHONDONTWRITEBYTECODE"] = "1"
     if env:
         e.update(env)
